@@ -688,6 +688,25 @@ _s("float_inexact", r"""
                     sqrt(squared(seconds)(2.0)).in(seconds), double(hypot(seconds(1.1f), seconds(2.2f)).in(seconds)));
 """)
 
+_s("ordering_through_std", r"""
+        // C++20's library builds the < of pair / tuple on the elements' <=>: the same C++14 program
+        // reaches operator<=> there.  Unsigned reps with the smaller operand on the left.
+        const auto p1 = make_quantity_point<Seconds>(100u);
+        const auto p2 = make_quantity_point<Seconds>(400u);
+        const auto q1 = seconds(std::uint8_t{3});
+        const auto q2 = seconds(std::uint8_t{200});
+        const auto d1 = make_quantity_point<Minutes>(1.5);
+        const auto d2 = make_quantity_point<Seconds>(91.0);
+        std::printf("ordering_through_std %d %d %d %d %d %d | %d %d %d\n", int(std::make_pair(p1, 1) < std::make_pair(p2, 0)), int(std::make_pair(p2, 0) < std::make_pair(p1, 1)),
+                    int(std::make_tuple(q1, 'a') < std::make_tuple(q2, 'a')), int(std::make_tuple(q2, 'a') <= std::make_tuple(q1, 'z')),
+                    int(std::max(p1, p2) == p2), int(std::min(q1, q2) == q1), int(std::make_pair(d1, 0) < std::make_pair(d1, 1)), int(p1 < p2), int(q2 > q1));
+#if defined(__cpp_impl_three_way_comparison) && __cpp_impl_three_way_comparison >= 201907L
+        std::printf("ordering_through_std_direct %d %d %d\n", int((p1 <=> p2) < 0), int((q1 <=> q2) < 0), int((d1 <=> d2) < 0));
+#else
+        std::printf("ordering_through_std_direct %d %d %d\n", int(p1 < p2), int(q1 < q2), int(d1 < d2));
+#endif
+""", defs="#include <algorithm>\n#include <tuple>\n#include <utility>\n")
+
 def names():
     return sorted(SNIPPETS)
 
